@@ -16,7 +16,7 @@
 From Coq Require Import List NArith ZArith Bool Sorted.
 From ApiFu Require Import Base.Sexp TimeConn.TimeModel TimeConn.TimeSpec TimeConn.TimeProofs
   TimeConn.TimeErrModel TimeConn.TimeErrProofs TimeConn.TimeCursorCodec TimeConn.TimeCursorCodecProofs
-  TimeConn.GoTimeModel TimeConn.GoTimeProofs TimeConn.TimeCostProofs.
+  TimeConn.GoTimeModel TimeConn.GoTimeProofs TimeConn.TimeCostProofs TimeConn.TimeVerdictProofs.
 From ApiFu Require Cost.CostModel.
 Import ListNotations.
 Open Scope Z_scope.
@@ -376,6 +376,52 @@ Theorem C16_time_cost_bounds_page : forall U (ctx : CostModel.kctx U) E g ps wan
        = Some (Z.of_nat (length (TimeRef E a))).
 Proof. exact time_cost_bounds_page. Qed.
 
+(** ** Final round: the complete verdict — real errors and non-slice answers together
+
+    The theorems on failing calls above assume [no_bad ps]; the priority between a real error and
+    a non-slice answer was so far only compared per case.  [verdict ps qs] (TimeConn/
+    TimeVerdictProofs.v) says what ends the fetch for EVERY way the calls can answer:
+    (1) the first synchronous call in issue order that fails or answers a non-slice value;
+    (2) otherwise the first promise in issue order that resolves to an error; (3) otherwise, if
+    some promise resolved to a non-slice value, the non-slice error — so a real error of any
+    promise beats a non-slice value of an earlier promise; (4) otherwise nothing. *)
+
+(** The verdict decides the outcome of the connection field completely, with no hypothesis on the
+    calls: the error it names nulls the field (only the queries up to a synchronous stop were
+    issued, ResolveTotalCount is not called outside the lazy path), and without a verdict the
+    connection is the error-free transcription plus totalCount. *)
+Theorem C16_time_verdict_decides : forall V g ps s tc a,
+  arg_error a = false -> fetches s a = true ->
+  let qs := range_queries V (cur_of (a_after a)) (cur_of (a_before a)) (a_from a) (a_to a) (limit_of a) in
+  match verdict ps qs with
+  | Some (st, n) =>
+      exists tcn,
+        xconn V true g ps s tc a
+        = (XFieldError (ferr_of_stop st :: (if lazy_of a then total_err_of s tc else [])), firstn n qs, tcn)
+        /\ (lazy_of a = false -> tcn = Some O)
+  | None => xconn V true g ps s tc a = with_total s tc (conn V g (hand ps) (want_info s) a)
+  end.
+Proof. exact xconn_verdict. Qed.
+
+(** No verdict exactly when every call that would be issued answered cleanly (no error, no
+    non-slice value) ... *)
+Theorem C16_time_no_verdict_means_clean_calls : forall ps qs,
+  verdict ps qs = None -> forall j, (j < length qs)%nat -> clean_call (ps j).
+Proof. exact verdict_none_clean. Qed.
+
+(** ... so a page (when edges are fetched at all) is never returned beside a failed or non-slice
+    answer — the no-partial-page theorem without [no_bad]. *)
+Theorem C16_time_page_means_no_verdict : forall V g ps s tc a es info total issued tcn,
+  fetches s a = true ->
+  xconn V true g ps s tc a = (XPage es info total, issued, tcn) ->
+  verdict ps (range_queries V (cur_of (a_after a)) (cur_of (a_before a)) (a_from a) (a_to a) (limit_of a)) = None.
+Proof. exact xconn_page_no_verdict. Qed.
+
+(** Without non-slice answers the verdict is the winner of the error theorems. *)
+Theorem C16_time_verdict_extends_winner : forall ps qs, no_bad ps ->
+  verdict ps qs = match winner ps qs with Some (id, n) => Some (SErr id, n) | None => None end.
+Proof. exact verdict_no_bad. Qed.
+
 Print Assumptions C16_cursor_order_strict_total.
 Print Assumptions C16_reference_characterised.
 Print Assumptions C16_sorted_list_unique.
@@ -412,3 +458,7 @@ Print Assumptions C16_time_cost_bounds_page.
 Print Assumptions C16_time_non_slice_answer_is_an_error.
 Print Assumptions C16_time_no_crash_whatever_the_getter_answers.
 Print Assumptions C16_non_slice_panic_before_fix.
+Print Assumptions C16_time_verdict_decides.
+Print Assumptions C16_time_no_verdict_means_clean_calls.
+Print Assumptions C16_time_page_means_no_verdict.
+Print Assumptions C16_time_verdict_extends_winner.
